@@ -23,6 +23,62 @@ CHECKS = {
         "property-based testing: exhaustive small-scope enumeration + proptest random histories against a reference model (full read-back oracle)",
         "DESIGN.md §5 C01",
     ),
+    "C02": (
+        "core+api",
+        "exploration",
+        "Schedule-owning generated search with a model-free oracle: all 70 interleavings of 2 clients x 2 cget/cset cycles and all 90 of 3 clients x 1 cycle, for every choice of carried version and three initial states (71 040 cases, exhaustive for that scope), plus 100 k random programs/interleavings (u64-boundary versions, set, delete, two keys); every mutating request is bracketed by the harness' own cget and checked against the statement's decision table, then history invariants (one winner per version, versions never go back, final value). Atomicity of a request is validated by 30 (thorough: 600) multi-threaded counter runs through the whole in-process server.",
+        "The harness owns the schedule only at request granularity on the direct core; interleavings inside the server are sampled by the threaded part (thread schedules are not seedable). Carried version u64::MAX is excluded (D17).",
+        "property-based testing: exhaustive interleaving enumeration + proptest programs/schedules with a decision-table + history-invariant oracle; threaded stress validation",
+        "DESIGN.md §5 C02",
+    ),
+    "C03": (
+        "core",
+        "exploration",
+        "Model-based random histories (60 k quick) of writes interleaved with subscribe/psubscribe (all unique x live-only combinations), unsubscribe and session ends by up to 3 clients; every receiver is drained after every request and compared with the model's expected events per subscription and key (sequence per key), snapshots are compared on subscribe, ended subscriptions must stay silent, and snapshot folded with events must equal pget(pattern) after every request. Sampled, no absence claim.",
+        "Event order across requests is fixed by construction (drain after each request); the forwarding tasks of a socket session are not part of this engine (see C13/C17 for the wire). Known finding D3 (K/# vs K) is tolerated only on exactly that shape.",
+        "property-based testing: proptest random histories against a reference model of subscriptions (per-request event multiset/sequence oracle + fold == pget metamorphic check)",
+        "DESIGN.md §5 C03",
+    ),
+    "C04": (
+        "core",
+        "exploration",
+        "Exhaustive differential check of the three matchers against each other and against the documented relation: all 779 patterns over {a,b,'',?,#} of depth <= 4 (thorough: 5) x all 362 keys over {a,b,''} of depth <= 5 (282 k pairs), each on a fresh core: pget contains k <=> pdelete removes k <=> live subscriber notified <=> documented relation; misplaced # rejected by all three; auth matcher equal to the relation; plus 100 k random unicode/long-segment pairs. Exhaustive for the stated alphabet and depth, which covers every branch of the recursive matchers.",
+        "The documented relation is taken from README.md ('key starts with my/key/') and specification.md; the empty string is excluded as key and as pattern (the server refuses the empty key). D3 (K/# vs K) is a listed known finding pinned by existing tests.",
+        "property-based testing: exhaustive enumeration + proptest pairs, 3-way differential against a documented-relation oracle",
+        "DESIGN.md §5 C04",
+    ),
+    "C05": (
+        "core",
+        "exploration",
+        "Model-based random histories (60 k quick) of set/cset (accepted and rejected)/delete/pdelete/import with ls-subscriptions on existing, missing and root parents at every position; after every request ls of every prefix ever used, pls of generated patterns, and for every ls-subscription: last delivered list == current child set, and a list was delivered whenever the set changed.",
+        "Lists are compared as sorted lists (duplicates fail). D7 (import sends no ls notification) is a listed known finding tolerated only for import requests.",
+        "property-based testing: proptest random histories against a reference model (child-set oracle, last-list invariant)",
+        "DESIGN.md §5 C05",
+    ),
+    "C06": (
+        "core",
+        "exploration",
+        "Every sequence of length <= 5 (thorough: 6) over lock/acquire/release/disconnect by 3 clients on one key (271 k sequences, exhaustive for that scope) plus 100 k random histories with 4 clients and nested keys; after every request the answer, the state (pending/granted/cancelled) of every outstanding acquire request and the one-holder invariant (clients told they hold the key == model holder, at most one) are checked.",
+        "Release by a client that is currently waiting is not generated (statement silent). The harness owns the schedule at request granularity.",
+        "property-based testing: exhaustive small-scope enumeration + proptest histories against a lock-queue reference model with a one-holder invariant",
+        "DESIGN.md §5 C06",
+    ),
+    "C07": (
+        "core",
+        "exploration",
+        "Model-based histories (60 k free-form + 60 k structured scenarios quick) of up to 4 clients registering overlapping grave goods / last wills (CAS, buried, $SYS and invalid targets), subscribing, locking, opening publish streams and leaving in generated order; after every request the whole store incl. $SYS, all remaining subscriptions' events (bury before will per key), ls lists, locks and pending acquires are compared with the model's session-end procedure.",
+        "Session end = the core's `disconnected` call (what every transport invokes). Last wills aimed at the leaving client's own $SYS entries and ill-typed registrations (D8) are excluded by construction and counted.",
+        "property-based testing: proptest random + structured histories against a reference model of the session-end procedure (full read-back + event oracle)",
+        "DESIGN.md §5 C07",
+    ),
+    "C08": (
+        "core",
+        "exploration",
+        "A table of 9 request kinds x 55 literal/wildcard key shapes that can reach $SYS (495 single-request cases, enumerated) plus 60 k random histories with 60 % $SYS-shaped keys/patterns: requests on protected keys must be rejected, the full store incl. $SYS must equal the model, and a catch-all subscriber must see no event on a protected key caused by a client.",
+        "Extended monitoring is off so the model reproduces the server's own $SYS bookkeeping. Known findings D5/D5b (first-segment wildcards in pdelete / grave goods) and D6 (publish) are tolerated only on exactly those shapes.",
+        "property-based testing: enumerated request/key-shape table + proptest histories against a reference model with $SYS attribution",
+        "DESIGN.md §5 C08",
+    ),
 }
 
 NOT_YET = "check not built yet in this round of the build phase (work in progress, see DESIGN.md §5)"
@@ -59,7 +115,7 @@ def main():
             "add_only": True,
         },
         "engines": [
-            {"name": "core", "path": "harness/src/interp.rs", "serves_properties": ["C01"], "kind_free_text": "direct calls on worterbuch::verif::Worterbuch in a current-thread tokio runtime, receivers drained after every request, compared with harness/src/model.rs"},
+            {"name": "core", "path": "harness/src/interp.rs", "serves_properties": ["C01", "C02", "C03", "C04", "C05", "C06", "C07", "C08"], "kind_free_text": "direct calls on worterbuch::verif::Worterbuch in a current-thread tokio runtime, receivers drained after every request, compared with harness/src/model.rs"},
         ],
         "checks": checks,
         "not_applicable": na,
